@@ -84,8 +84,10 @@ def one(ctx, data, meta=None):
                     for k, (x, y) in enumerate(zip(ro, rh)):
                         err, proj, _f = analyse(''.join(y['runs']))
                         if err is None and proj != ''.join(x['runs']):
+                            tb = any(src.ptag(h) == 'w:hyperlink' and any(src.ptag(z) == 'w:txbxContent' for z in h.iter()) for root in parts.values() for h in root.iter())
                             ctx.fail('switching html changes a string other than by adding tags and escapes', case_payload(data, dup=dup, attribute=v, paragraph_index=k),
-                                     {'html_on': ''.join(y['runs']), 'projected': proj, 'html_off': ''.join(x['runs'])}); good = False; break
+                                     {'html_on': ''.join(y['runs']), 'projected': proj, 'html_off': ''.join(x['runs'])},
+                                     features=['text-box-inside-hyperlink'] if tb else []); good = False; break
         for html in (False, True):
             a, b = noncopy_runs(obs[(html, True)][who]), noncopy_runs(obs[(html, False)][who])
             if a is None or b is None: continue
